@@ -8,7 +8,15 @@ Mirrors
 * `vrp-pragmatic/src/format/problem/fleet_reader.rs`: `get_profile_index_map`, `create_transport_costs`
   (profile name → index with the positional fallback, error codes → −1), `read_fleet` (vehicle → `Profile`),
 * `vrp-pragmatic/src/validation/routing.rs`: E1500, E1501, E1503, E1504, E1505 (the gate in front of the reader),
+* `vrp-pragmatic/src/format/coord_index.rs` + `location_fallback.rs`: the index of the location of custom type `unknown`
+  and its zero fallback,
 * `vrp-scientific/src/common/routing.rs`: `CoordIndex::collect`, `create_transport`, `SingleDataTransportCost`.
+
+Deviations of the code from the property that the model mirrors (each has a witness theorem in `VrpProofs/C16.lean` and
+a corpus case; the harness tags the corresponding streams `dev`/`in_hyp = false`):
+S28 (matrix name that is no fleet profile ⇒ positional; switch `readerMode`), D1 (lengths are compared through rounded
+square roots: `build`), D2 (no look at equal timestamp keys: `newAware`), D3 (`customIndex` squares the number of distinct
+locations, not the matrix size), S12a (`to ≥ size` addresses another row).
 
 Numbers: matrix entries and matrix timestamps are integers, query times and profile scales are rationals
 (`Rat` is exact; the harness generates only inputs on which the `f64` operations of the code are exact).
